@@ -201,7 +201,7 @@ def class_list():
 def behaviour(a):
     """per module, in a process that imported only that module: every rule on sentences derived from the grammar,
     mutants and a few fixed strings; end sets at offset 0 vs the engine model on the loader model's registry"""
-    per_rule = 6 * a.boost if a.tier == "quick" else 60
+    per_rule = 6 * min(a.boost, 2) if a.tier == "quick" else 60     # all 866 rules x per_rule sentences: keep the boosted quick run well under 15 min
     classes = class_list()
     bymod = {}
     for m, c in classes:
